@@ -30,6 +30,7 @@ def project_tunnel_sys(beh, rng, name=""):
     cur = 0
     kinds = set()
     faults = 0
+    pending_gate = {}
 
     def after(c, total):
         if total == 0:
@@ -41,6 +42,7 @@ def project_tunnel_sys(beh, rng, name=""):
         return min(total // 2 + 1, rng.randint(20000, 400000))
 
     for act, args in beh:
+        act = "Cut" if act == "G_Cut" else act
         if act == "Collect":
             k = args[0]
             car[k] = "pool"
@@ -65,7 +67,14 @@ def project_tunnel_sys(beh, rng, name=""):
                     f["keep_ws_ms"] = rng.choice([500, 2000, 8000])
                     kinds.add("halfopen")
             car[k], cur, att[k] = "live", k, True
-        elif act == "WriteIdFails":
+        elif act in ("WriteIdFails", "WriteIdFailsMarked", "WriteIdFailsUnmarked"):
+            k = args[1]
+            car[k] = "dead"
+            if act == "WriteIdFailsUnmarked" and k in pending_gate:
+                # the write fails while the peer is not yet marked closed
+                pending_gate[k]["park"] = True
+                kinds.add("write-fails-unmarked")
+        elif act == "PopSkip":
             car[args[1]] = "dead"
         elif act == "StaleClose":
             if cur:
@@ -89,12 +98,19 @@ def project_tunnel_sys(beh, rng, name=""):
         elif act in ("Cut", "Freeze"):
             k = args[0]
             p = peers.get(k)
-            if p is None or car.get(k) not in ("popped", "live", "frozen"):
+            if p is None or car.get(k) not in ("pool", "popped", "live", "frozen"):
                 continue
             faults += 1
             if act == "Cut" and car[k] == "popped":
                 p["gate"] = True
                 kinds.add("cut-between-pop-and-token")
+                pending_gate[k] = p
+            elif act == "Cut" and car[k] == "pool":
+                # a reserve dies while it waits in the client's pool
+                p["pool_kill"] = True
+                p["pool_kill_ms"] = rng.choice([50, 150, 400])
+                kinds.add("reserve-dies-in-pool")
+                car[k] = "pool-broken"
             elif act == "Cut":
                 if rng.random() < 0.5:
                     # the proxy dies
@@ -212,9 +228,14 @@ def run_system_quick(chk, out):
          "origin": {"module": "Tunnel", "steps": [["WriteId", ["A", 1]], ["Freeze", [1]], ["StaleClose", ["A"]], ["Pop", ["A", 2]], ["WriteId", ["A", 2]]]}},
         {"name": "c01-sysq-gate", "seed": chk.seed, "up": 100000, "down": 100000, "max": 2, "bound_ms": QUICK_BOUND_MS,
          "peers": [{"answer": "ok", "ip": "192.0.2.7", "gate": True}, {"answer": "ok", "ip": "192.0.2.7"}],
-         "origin": {"module": "Tunnel", "steps": [["Pop", ["A", 1]], ["Cut", [1]], ["WriteIdFails", ["A", 1]], ["Pop", ["A", 2]]]}},
+         "origin": {"module": "Tunnel", "steps": [["Pop", ["A", 1]], ["Cut", [1]], ["MarkClosed", [1]], ["WriteIdFailsMarked", ["A", 1]], ["Pop", ["A", 2]]]}},
+        # the same, but the write fails while the peer is NOT yet marked closed (its close callback is held
+        # at the peer.onclose gate until after the write)
+        {"name": "c01-sysq-gate-unmarked", "seed": chk.seed, "up": 100000, "down": 100000, "max": 2, "bound_ms": QUICK_BOUND_MS,
+         "peers": [{"answer": "ok", "ip": "192.0.2.7", "gate": True, "park": True}, {"answer": "ok", "ip": "192.0.2.7"}],
+         "origin": {"module": "Tunnel", "steps": [["Pop", ["A", 1]], ["Cut", [1]], ["WriteIdFailsUnmarked", ["A", 1]], ["MarkClosed", [1]], ["Pop", ["A", 2]]]}},
     ]
-    results, summary, o, races = run_sysrig(binary, scs, par=2, timeout=400, tag="sysq")
+    results, summary, o, races = run_sysrig(binary, scs, par=3, timeout=400, tag="sysq")
     chk.note("system rig (quick): %d done, %d stalled, %d faults fired, %.0fs" % (summary["done"], summary["stalled"], summary["faults"], summary["wall_ms"] / 1000.0))
     judge_sys(chk, binary, scs, results, bound_ms=QUICK_BOUND_MS)
     fr = results.get("c01-sysq-freeze", {})
@@ -236,14 +257,17 @@ def run_system(chk):
         rng = random.Random("sys/%d/%d" % (chk.seed, bi))
         sc, info = project_tunnel_sys(beh, rng, name="c01-sys-%d" % bi)
         sc["origin"] = {"module": "Tunnel_Gen", "config": "Gen_sys.cfg",
-                        "steps": [[a, b] for a, b in beh if a in ("Pop", "WriteId", "WriteIdFails", "Cut", "Freeze", "AnswerLost", "Collect", "StaleClose")]}
+                        "steps": [[a, b] for a, b in beh if a in ("Pop", "PopSkip", "MarkClosed", "WriteId", "WriteIdFailsMarked", "WriteIdFailsUnmarked", "Cut", "G_Cut", "Freeze", "AnswerLost", "Collect", "StaleClose")]}
         scs.append(sc)
         kinds |= info["kinds"]
         nf += info["faults"]
     # the D15 schedule is always present (it is the regression of the repair)
     scs.append({"name": "c01-sys-gate", "seed": chk.seed, "up": 100000, "down": 100000, "max": 2, "bound_ms": SYS_BOUND_MS,
                 "peers": [{"answer": "ok", "ip": "192.0.2.7", "gate": True}, {"answer": "ok", "ip": "192.0.2.7"}],
-                "origin": {"module": "Tunnel", "steps": [["Pop", ["A", 1]], ["Cut", [1]], ["WriteIdFails", ["A", 1]]]}})
+                "origin": {"module": "Tunnel", "steps": [["Pop", ["A", 1]], ["Cut", [1]], ["MarkClosed", [1]], ["WriteIdFailsMarked", ["A", 1]]]}})
+    scs.append({"name": "c01-sys-gate-unmarked", "seed": chk.seed, "up": 100000, "down": 100000, "max": 1, "bound_ms": SYS_BOUND_MS,
+                "peers": [{"answer": "ok", "ip": "192.0.2.7", "gate": True, "park": True}, {"answer": "ok", "ip": "192.0.2.7"}],
+                "origin": {"module": "Tunnel", "steps": [["Pop", ["A", 1]], ["Cut", [1]], ["WriteIdFailsUnmarked", ["A", 1]], ["MarkClosed", [1]]]}})
     chk.note("system rig: %d scenarios (%d planned faults; kinds %s)" % (len(scs), nf, sorted(kinds)))
     # the same machinery under the race detector, next to the main run (monitor only: a race is C20's business)
     import threading
